@@ -49,6 +49,14 @@ def main():
         resource.setrlimit(resource.RLIMIT_AS, (int(gib * (1 << 30)),) * 2)
     except Exception:  # noqa
         pass
+    try:  # die with the supervisor (workers run in their own session)
+        import ctypes
+
+        ctypes.CDLL("libc.so.6", use_errno=True).prctl(1, signal.SIGKILL)
+        if os.getppid() == 1:
+            os._exit(0)
+    except Exception:  # noqa
+        pass
     sys.setrecursionlimit(6000)
     rin = os.fdopen(fd_in, "r", encoding="utf-8")
     wout = os.fdopen(fd_out, "w", encoding="utf-8")
